@@ -574,3 +574,7 @@ func sortedCopy(xs []string) []string {
 	sort.Strings(out)
 	return out
 }
+
+func biscuitOpts(a AuthCase) biscuit.AuthorizerOption {
+	return biscuit.WithWorldOptions(datalog.WithMaxFacts(a.MaxFacts), datalog.WithMaxIterations(a.MaxIter), datalog.WithMaxDuration(20*time.Second))
+}
